@@ -2,7 +2,16 @@ use crate::engine::Property;
 
 pub mod c01;
 pub mod c02;
+pub mod c06;
+pub mod c08;
+pub mod c09;
 
 pub fn all() -> Vec<Property> {
-    vec![c01::property(), c02::property()]
+    vec![
+        c01::property(),
+        c02::property(),
+        c06::property(),
+        c08::property(),
+        c09::property(),
+    ]
 }
